@@ -80,6 +80,9 @@ def run(prop, tier, seed, ctx):
     mres = tlc.run("MC_Grading", "MUT_Grading_student_modules_stay.cfg", workers=2, timeout=300)
     if "PristineAtStart" not in mres.violated:
         raise MachineryError("mutant student_modules_stay did not violate PristineAtStart")
+    gres = tlc.run("MC_Grading", "MUT_Grading_gs_maximum_stays.cfg", workers=2, timeout=300)
+    if "PristineAtStart" not in gres.violated:
+        raise MachineryError("mutant gs_maximum_stays did not violate PristineAtStart")
     mres = tlc.run("MC_Grading", "MUT_Grading_vpl_maximum_stays.cfg", workers=2, timeout=300)
     if "PristineAtStart" not in mres.violated:
         raise MachineryError("mutant vpl_maximum_stays did not violate PristineAtStart")
